@@ -261,6 +261,12 @@ def p_take(I, st, pv, inp, ctx):
         if sa and abs(sa[1]) == 1 and s.size() <= 64:
             a, k, c = sa
             raise NeedSplit(a, [IntSet.of((v - c) * k) for v in s.values()])
+        gen = pv.info.get("generics")
+        oty = I.int_ty(gen[1]["ty"]) if gen and "ty" in gen[1] else None
+        if oty is not None and not s.is_empty() and s.max() >= oty[0] + 8:
+            # nom's take shifts the first chunk by count - (8 - offset) >= count - 8 bits
+            raise Unanalysable("bits::take count %r can reach %d, more than the %d-bit output can hold: nom shifts left by "
+                               "the excess (overflow panic in checked builds, silent truncation otherwise)" % (pv.args[0], s.max(), oty[0]))
         raise Unanalysable("take count not constant: %r" % (pv.args[0],))
     sl, o = cursor_parts(I, st, inp)
     gen = pv.info["generics"]
@@ -3357,3 +3363,33 @@ for _t, _w, _s in (("u8", 8, False), ("u16", 16, False), ("u32", 32, False), ("u
         CONTRACT["core:%s::from_%s_bytes" % (_t, _o)] = "total"
 CONTRACT["core:Option<(T, U)>::unzip"] = "total"
 CONTRACT["core::iter::traits::iterator::Iterator::zip"] = "total"
+
+
+@ext("core::iter::traits::iterator::Iterator::collect", contract="pre")
+def h_collect(I, st, callee, target, args, ctx):
+    """`slice.iter().copied().collect()` into a byte vector.  alloc: the copy of the slice.
+    heapless: `FromIterator` pushes with `expect("Vec::from_iter overflow")` - a panic, not an
+    error, when the slice is longer than the capacity (pinned: heapless 0.7.17 src/vec.rs)."""
+    it = args[0]
+    if isinstance(it, VParser) and it.kind == "it_copied" and type(it.args[0]) is VIter:
+        it = it.args[0]
+    else:
+        raise Unanalysable("collect of %r" % (args[0],))
+    dest = ctx["term"]["dest"]
+    ty = ctx["body"]["locals"][dest["l"]] if not dest["p"] else None
+    t = I.rty(ty) if ty is not None else None
+    if t is None or t["k"] != "adt":
+        raise Unanalysable("collect into an unknown type")
+    sl = it.slice
+    start, n = sl.start + it.pos, sl.len - it.pos
+    if t["def"] == "alloc::vec::Vec":
+        return [(st, VSeq(("slice", sl.buf, start, n), None))]
+    cap = vec_cap(I, t)
+    if cap is not None and t["def"].startswith("heapless::vec::Vec"):
+        over = decide_le0(st, -n + cap + 1, "heapless from_iter")   # cap < n
+        panic_obligation(I, st, ctx, "heapless::Vec::from_iter overflow", not over,
+                         None if not over else "collect() of %r bytes into a heapless vector of capacity %d panics" % (n, cap))
+        if over:
+            return []
+        return [(st, VSeq(("slice", sl.buf, start, n), cap))]
+    raise Unanalysable("collect into %s" % t.get("text", t["def"]))
